@@ -314,6 +314,31 @@ fn setup(t: &mut Trace, rng: &mut Rng, g: &mut Gen) {
     }
 }
 
+/// a token held by the NFT contract's own address: nobody can sign for that address from outside, so the token
+/// stays put whoever signs (seed C11-r11-1: `transfer` skipped `require_auth` for the contract's own address)
+fn directed_self(t: &mut Trace, fl: Flavour, min_temp: u32) {
+    let mut g = Gen::new(fl, min_temp, 100);
+    t.seq(&g.s.label("directed token held by the contract's own address"));
+    if fl == Flavour::Cons {
+        g.run(t, "batch_mint", &[0], 0, 3, 0, &[]);
+    } else {
+        for _ in 0..3 {
+            g.run(t, "mint", &[0], 0, 0, 0, &[]);
+        }
+    }
+    g.run(t, "transfer", &[0, SELF], 1, 0, 0, &[0]); // sent to the contract
+    g.run(t, "transfer", &[SELF, 4], 1, 0, 0, &[]);
+    g.run(t, "transfer", &[SELF, 4], 1, 0, 0, &[4]);
+    g.run(t, "transfer", &[SELF, 0], 1, 0, 0, &[0]);
+    g.run(t, "transfer_from", &[4, SELF, 4], 1, 0, 0, &[4]);
+    g.run(t, "approve", &[SELF, 4], 1, 0, 200, &[4]);
+    g.run(t, "transfer_from", &[4, SELF, 4], 1, 0, 0, &[4]);
+    if fl != Flavour::Acx {
+        g.run(t, "burn", &[SELF], 1, 0, 0, &[4]);
+    }
+    g.run(t, "transfer", &[0, 3], 0, 0, 0, &[0]); // everybody else's tokens move as before
+}
+
 /// actors: 0 owner, 1 approved, 2 operator, 3 new owner, 4 stranger, 5 second approved
 fn directed_for(t: &mut Trace, fl: Flavour, min_temp: u32) {
     let mut g = Gen::new(fl, min_temp, 100);
@@ -440,6 +465,9 @@ fn main() {
         directed_long(&mut t, fl, 1);
     }
     directed_long(&mut t, Flavour::Cons, 16);
+    for fl in [Flavour::Seq, Flavour::Enum, Flavour::Cons, Flavour::Exp] {
+        directed_self(&mut t, fl, 1);
+    }
     for k in 0..nseq {
         let mut fl = match rng.below(10) {
             0 | 1 | 2 => Flavour::Seq,
